@@ -84,6 +84,8 @@ Fixpoint wf_stmt (st : stmt) : Prop :=
   | SReturn o => wf_opt o
   | SBlock ss => allP wf_stmt ss
   | SPrint _ args => allP wf_expr args
+  | SStruct _ x flds => forall j, (j < List.length flds)%nat -> In (mkey x j) L     (* member cells are locals *)
+  | SCopy _ _ _ => True
   end.
 
 Definition wf_func (fd : func) : Prop :=
